@@ -27,7 +27,8 @@ def generate(streams, tier):
     rd = streams.s("data")
     nrows = rd.choice([1, 2, 3, 5, 8, 12, 20, 40, 60])
     rows = W.gen_rows(rd, world, nrows)
-    weights = [rd.choice([0.5, 1.0, 2.0, 3.0]) for _ in rows]
+    wscale = rd.choice([1.0, 1.0, 1e-3, 1e-9, 1e6])  # weighted ML is invariant to the scale of the weights
+    weights = [rd.choice([0.5, 1.0, 2.0, 3.0]) * wscale for _ in rows]
     rw = streams.s("workload")
     ops = []
     for _ in range(rw.randint(1, 3)):
